@@ -194,7 +194,10 @@ impl ActiveEdge {
                 // update slope if we're going to be using it
                 // we want to avoid dividing by 0 which can happen if we exited the loop above early
                 if (cury + 1) < self.y2 {
-                    self.slope_x = div_fixed16_fixed16(self.next_x - self.old_x, self.next_y - self.old_y) >> 2;
+                    // round toward zero like the slope of a line edge: rounding down made an edge
+                    // running to the left a little too steep, and over a few thousand rows it
+                    // drifted past the end of its segment (and out of the path's bounds)
+                    self.slope_x = div_fixed16_fixed16(self.next_x - self.old_x, self.next_y - self.old_y) / 4;
                     // the new segment starts at old_y, which is usually part of the way through
                     // this sample row, so only the rest of the row is left to advance by.
                     // Advancing by a whole row would overshoot the segment (and the path's bounds).
